@@ -493,3 +493,115 @@ theorem cleanReceiptsFrom_receipt (s : Core) (src dst : Chain) (start fuel : Nat
 
 end Core
 end Tibc
+
+namespace Tibc
+namespace Core
+
+/-! ### `ValidateCleanPacket` / `CleanPacket` -/
+
+theorem anyCommit_iff (s : Core) (src dst : Chain) (start fuel : Nat) :
+    anyCommit s src dst start fuel = true ↔
+      ∃ n, start ≤ n ∧ n < start + fuel ∧ (s.ps.commit ⟨src, dst, n⟩).isSome = true := by
+  induction fuel generalizing start with
+  | zero =>
+    simp only [anyCommit]
+    constructor
+    · intro h; cases h
+    · rintro ⟨n, h1, h2, _⟩; omega
+  | succ k ih =>
+    simp only [anyCommit, Bool.or_eq_true, ih]
+    constructor
+    · rintro (h | ⟨n, h1, h2, h3⟩)
+      · exact ⟨start, Nat.le_refl _, by omega, h⟩
+      · exact ⟨n, by omega, by omega, h3⟩
+    · rintro ⟨n, h1, h2, h3⟩
+      by_cases hn : n = start
+      · subst hn; exact Or.inl h3
+      · exact Or.inr ⟨n, by omega, by omega, h3⟩
+
+/-- the range conditions of a clean request: strictly above the previous clean point, not above
+    the highest acknowledged sequence, and no commitment left anywhere in `[cleanPoint, N]` -/
+def CleanRangeOk (s : Core) (cp : CleanPacket) : Prop :=
+  s.ps.clean cp.pair < cp.seq ∧ cp.seq ≤ s.ps.maxAck cp.pair ∧
+  ∀ n, s.ps.clean cp.pair ≤ n → n ≤ cp.seq → s.ps.commit ⟨cp.src, cp.dst, n⟩ = none
+
+theorem validateClean_ok_iff (s : Core) (cp : CleanPacket) :
+    validateClean s cp = .ok ↔ CleanRangeOk s cp := by
+  unfold validateClean CleanRangeOk
+  simp only
+  by_cases h1 : cp.seq ≤ s.ps.clean cp.pair
+  · simp [h1]; omega
+  · by_cases h2 : cp.seq > s.ps.maxAck cp.pair
+    · simp [h1, h2]; intro _ h; omega
+    · simp only [h1, h2, decide_false, Bool.or_self, Bool.false_eq_true, if_false]
+      cases hc : anyCommit s cp.src cp.dst (s.ps.clean cp.pair) (cp.seq + 1 - s.ps.clean cp.pair) with
+      | true =>
+        simp only [if_true]
+        rw [anyCommit_iff] at hc
+        obtain ⟨n, hn1, hn2, hn3⟩ := hc
+        constructor
+        · intro h; cases h
+        · rintro ⟨_, _, hall⟩
+          have := hall n hn1 (by omega)
+          rw [this] at hn3; cases hn3
+      | false =>
+        simp only [Bool.false_eq_true, if_false, true_iff]
+        refine ⟨by omega, by omega, ?_⟩
+        intro n hn1 hn2
+        cases hcm : s.ps.commit ⟨cp.src, cp.dst, n⟩ with
+        | none => rfl
+        | some d =>
+          have : anyCommit s cp.src cp.dst (s.ps.clean cp.pair) (cp.seq + 1 - s.ps.clean cp.pair) = true := by
+            rw [anyCommit_iff]; exact ⟨n, hn1, by omega, by simp [hcm]⟩
+          rw [hc] at this; cases this
+
+theorem validateClean_err (s : Core) (cp : CleanPacket) (e : Err) (h : validateClean s cp = .err e) :
+    e = .invalidClean := by
+  unfold validateClean at h
+  simp only at h
+  split at h
+  · cases h; rfl
+  · split at h
+    · cases h; rfl
+    · cases h
+
+/-- acceptance conditions of `CleanPacket` on the source chain -/
+def CleanOk (s : Core) (cp : CleanPacket) : Prop :=
+  cp.seq ≠ 0 ∧ CleanRangeOk s { cp with src := s.name } ∧ (s.clients (cleanTarget cp)).isSome = true
+
+def cleanWrites (s : Core) (cp : CleanPacket) : Core :=
+  let cp' : CleanPacket := { cp with src := s.name }
+  let s := s.setClean cp'.pair cp.seq
+  let s := cleanAcks s cp'.src cp'.dst cp.seq
+  let s := cleanReceipts s cp'.src cp'.dst cp.seq
+  s.emit (cleanEvent "send_clean_packet" cp')
+
+theorem cleanPacket_cases (s : Core) (cp : CleanPacket) :
+    (CleanOk s cp ∧ cleanPacket s cp = (cleanWrites s cp, .ok)) ∨
+    (¬ CleanOk s cp ∧ ∃ e, cleanPacket s cp = (s, .err e)) := by
+  unfold cleanPacket CleanOk cleanWrites
+  by_cases h0 : cp.seq = 0
+  · right; simp [h0]
+  · cases hv : validateClean s { cp with src := s.name } with
+    | err e =>
+      right
+      refine ⟨?_, e, by simp [h0, hv]⟩
+      rintro ⟨_, hr, _⟩
+      rw [← validateClean_ok_iff] at hr
+      rw [hr] at hv; cases hv
+    | ok =>
+      have hr := (validateClean_ok_iff s _).mp hv
+      cases hc : s.clients (cleanTarget cp) with
+      | none => right; simp [h0, hv, hc]
+      | some cl => left; exact ⟨⟨h0, hr, by simp [hc]⟩, by simp [h0, hv, hc]⟩
+
+/-! ### the clean point only moves forward; receipts disappear only below it -/
+
+theorem cleanAcks_same (s : Core) (src dst : Chain) (n : Nat) : SameButAck s (cleanAcks s src dst n) :=
+  cleanAcksFrom_same s src dst _ _
+
+theorem cleanReceipts_same (s : Core) (src dst : Chain) (n : Nat) : SameButReceipt s (cleanReceipts s src dst n) :=
+  cleanReceiptsFrom_same s src dst _ _
+
+end Core
+end Tibc
